@@ -395,7 +395,10 @@ func fanout(st *staged, prop string, seed uint64, thorough bool, workers, random
 	wg.Wait()
 	if failed != "" {
 		st.cleanup()
-		die(2, "INFRA: worker trouble (this is not a verdict):\n%s", failed)
+		os.MkdirAll(filepath.Join(verif, "replays"), 0o755)
+		logf := filepath.Join(verif, "replays", fmt.Sprintf("infra-%s-%d.log", prop, time.Now().Unix()))
+		os.WriteFile(logf, []byte(failed), 0o644)
+		die(2, "INFRA: worker trouble (this is not a verdict; details also in %s):\n%s", logf, failed)
 	}
 	return outs
 }
